@@ -18,11 +18,13 @@ COQ_IMPORTS = ('From Coq Require Import String.\n'
 NONTRIVIAL_RULE = ('non-trivial = the call returned, ran memoised (True or "recursive") and made fewer rule calls '
                    'than cells computed (at least one cache hit); distinct = distinct case dicts')
 EXHAUSTIVE = {'quick': False, 'thorough': False}
-ASSUMPTIONS = ['1D: rules are pure (Lin family) with results that fit the dtype; r in 1..N; timesteps >= 1']
-TRUSTED = ['Python twins Lin1 / Logged1 / PredLt of harness/twins.py']
+ASSUMPTIONS = ['1D: rules are pure (Lin, one third Aff with b != 0) with results that fit the dtype; r in 1..N; timesteps >= 1']
+TRUSTED = ['Python twins Lin1 / Aff1 / Logged1 / PredLt of harness/twins.py']
 _STATS = {'True': [0, 0], 'recursive': [0, 0]}
 NOTES = ['1D: every (N, r) with 1 <= r <= N <= 9, T in 1..6, all three modes; plus random larger rings and the calls of '
-         'the C03 call sequences, each observed on its own',
+         'the C03 call sequences, each observed on its own; evolve1d/shared_rule/*: the observed call comes after 1-4 '
+         'earlier calls that were given the same rule object (same / other radius, int8 <-> uint8 aliasing bytes, '
+         'int32 <-> int64, other memoize mode), and is still compared with the model of that call alone',
          'rule calls per cell: (filled in by the run)']
 
 
@@ -39,12 +41,30 @@ def gen_evolve1d(rng, tier):
     for c in g.gen_options(rng, tier):
         if c['kind'] in ('option/join', 'option/bytes'):
             yield {'kind': 'evolve1d/option/recursive', 'dim': 'evolve1d', 'call': c['calls'][0]}
+    # "within one evolve call": the observed call is preceded, in the same process and with the SAME rule object
+    # (one Logged1 wrapper; the observed call's slice of its log is what is compared), by the earlier calls of a
+    # C03 shared-object sequence (same or other radius / dtype with aliasing bytes / memoize mode, identical or
+    # overlapping rows).  A cache that survives a call and is found again through the rule object makes the
+    # observed call enter the rule less often than once per distinct content.
+    for c in g.gen_shared(rng, tier):
+        calls = c['calls']
+        flavour = c['kind'].split('/')[1]
+        for j in sorted({1, len(calls) - 1}):
+            mode = g.VALID[calls[j]['memo']]
+            yield {'kind': 'evolve1d/shared_rule/%s/%s' % (flavour, mode), 'dim': 'evolve1d', 'call': calls[j],
+                   'prior': calls[:j]}
 
 
 def run_evolve1d(c):
     import cellpylib as cpl
+    from harness.twins import Logged1, make_rule as make_rule1
     call = c['call']
-    o, ncalls, log = g.run_call(cpl, call, g.MEMO_FORMS[call['memo']][0]())
+    rule = None
+    if c.get('prior'):
+        rule = Logged1(make_rule1(call['rule']))       # every call of a shared sequence has this rule spec
+        for pc in c['prior']:
+            g.run_call(cpl, pc, g.MEMO_FORMS[pc['memo']][0](), rule)
+    o, ncalls, log = g.run_call(cpl, call, g.MEMO_FORMS[call['memo']][0](), rule)
     if o[0] != 'ok':
         return o
     return ['ok', {'ncalls': ncalls, 'contents': [n for (n, _, _) in log], 'array': o[1]}]
@@ -264,6 +284,8 @@ def shrink(c):
         return
     if c['dim'] != 'evolve1d':
         return
+    if c.get('prior'):
+        yield dict(c, prior=c['prior'][1:])
     call = c['call']
     kind, T = call['ts']
     if T > 2:
